@@ -6,7 +6,7 @@
    - XinSheYang (1), XinSheYang2 and XinSheYang3 overwrite their accumulators inside the loop, so only the
      LAST coordinate (and the last random draw) reaches the result,
    - Perm squares term by term, Rastrigin / EqualityConstr / Perm use `self.dimension` (= length of the vector),
-   - Schwefel uses alpha = 418.982887 per coordinate,
+   - Schwefel uses alpha = 418.9828872724339 per coordinate (after fix F9; before: 418.982887),
    - EqualityConstr returns -prod only if np.isclose(sum c^2, 1., rtol=0., atol=1e-9), else 0,
    - ModifiedEasom has no parity factor (fix F4), Synthetic5D/10D are maximised (fix F5).
    Float operations are read as the real operations they round (x ** 2. = x^2, np.fabs = Rabs, np.pi = PI,
@@ -65,8 +65,8 @@ Definition ackley (x : list R) : R :=
 
 Definition sphere (x : list R) : R := sum_map (fun c => c ^ 2) x.
 
-(* Schwefel: fitness -= c sin(sqrt|c|); fitness += 418.982887 *)
-Definition schwefel_alpha : R := 418982887 / 1000000.
+(* Schwefel: fitness -= c sin(sqrt|c|); fitness += 418.9828872724339 (fix F9) *)
+Definition schwefel_alpha : R := 4189828872724339 / 10000000000000.
 Definition schwefel_term (c : R) : R := schwefel_alpha - c * sin (sqrt (Rabs c)).
 Definition schwefel (x : list R) : R := sum_map schwefel_term x.
 
@@ -220,9 +220,10 @@ Definition ackley_b := {| b_f := ackley; b_dims := any_dim; b_box := cube (-32) 
   b_opt := fun _ => 0; b_coords := fun n => Some (repeat 0 n) |}.
 Definition sphere_b := {| b_f := sphere; b_dims := any_dim; b_box := cube (-(512/100)) (512/100); b_dir := Minimize;
   b_opt := fun _ => 0; b_coords := fun n => Some (repeat 0 n) |}.
-(* the per-coordinate minimum of the coded formula is -2.72e-7 (alpha is truncated), so the documented 0
-   is met within 1e-3 only while n <= 3000; the bound is part of the declared dimensions *)
-Definition schwefel_b := {| b_f := schwefel; b_dims := fun n => (1 <= n)%nat /\ INR n <= 3000; b_box := cube (-500) 500;
+(* with the full-precision alpha (fix F9) every term is >= 0, in every dimension.  The documented coordinates 420.9687
+   are rounded: the value there is 2.7e-10 per coordinate, so the documented 0 is met within 1e-3 while n <= 3.6e6;
+   the bound n <= 3 000 000 is part of the declared dimensions (it only matters for the value clause) *)
+Definition schwefel_b := {| b_f := schwefel; b_dims := fun n => (1 <= n)%nat /\ INR n <= 3000000; b_box := cube (-500) 500;
   b_dir := Minimize; b_opt := fun _ => 0; b_coords := fun n => Some (repeat (4209687 / 10000) n) |}.
 Definition easom_b := {| b_f := easom; b_dims := any_dim; b_box := cube (-2 * PI) (2 * PI); b_dir := Minimize;
   b_opt := fun _ => -1; b_coords := fun n => Some (repeat PI n) |}.
